@@ -162,3 +162,79 @@ Proof.
       apply upd_same. lia.
   - contradiction.
 Qed.
+
+(* termination call on a window *)
+Lemma win_term v q st sent pre consumed P W wbase wlen :
+  variant_ok v -> qinv q -> contents q = P ++ W -> qlen q = length P + length W ->
+  length P <= edone st -> length W = (edone st - length P) + escr st ->
+  window_geo q (length P) wbase wlen -> length W <= wlen ->
+  enc_inv v pre consumed (shift_st st (length sent)) (sent ++ contents q) ->
+  let '(r, stw', m) := win_enc v (wstate st (length P)) (qbuf q) wbase wlen None in
+  exists m', m = Ok m' /\
+  let st' := unw stw' (length P) in
+  let q' := set_len (set_buf q m') (edone st' + escr st') in
+  match r with
+  | EInt _ => einv (mkeq q' st') /\
+      exists body, sent ++ contents q' = pre ++ body ++ [0%N] /\ sdec v body = Some consumed /\
+        nozero body = true /\ idle_state (shift_st st' (length sent)) (sent ++ contents q')
+  | EErr _ => st' = st /\ m' = qbuf q
+  | EFault => False
+  end.
+Proof.
+  intros Hv Hq Hc Hl HP HW Hgeo Hfit Hinv.
+  pose proof (win_call_eq v q st sent P W wbase wlen None Hq Hc Hl HP HW Hgeo Hfit) as Heq.
+  pose proof (enc_term_call v pre consumed (shift_st st (length sent)) (sent ++ contents q)
+                (length sent + (length P + wlen)) Hv Hinv ltac:(cbn [shift_st edone escr]; lia)) as Htc.
+  destruct (enc_call v (wstate st (length P)) W wlen None) as [[r stw'] buf'] eqn:Ecall.
+  destruct Heq as [Hwin Hflat]. rewrite Hwin. rewrite Hflat in Htc.
+  pose proof Hq as (Hb & Hlm & Ho). destruct Hgeo as [Hin Hout Hgfit Hcap].
+  destruct r as [k|e|].
+  - destruct Htc as (body & Hbody & Hs & Hnz & Hidle & Hbound).
+    destruct Hidle as [Hi0 Hi1]. cbn [shift_st unw edone escr] in Hi0, Hi1.
+    rewrite !app_length in Hi1, Hbound.
+    assert (Hbl : length buf' <= wlen) by lia.
+    rewrite wr_ok by lia. eexists; split; [reflexivity|]. cbn zeta.
+    fold (upd (qbuf q) wbase buf').
+    replace (edone (unw stw' (length P)) + escr (unw stw' (length P))) with (length P + length buf')
+      by (cbn [unw edone escr]; lia).
+    destruct (window_update q P W buf' wbase wlen Hq Hl Hc (Build_window_geo _ _ _ _ Hin Hout Hgfit Hcap) Hbl) as [Hq' Hc'].
+    split.
+    + split; [exact Hq'|]. cbn [eq_q eq_st set_len qlen unw edone escr]. lia.
+    + exists body. rewrite Hc'. split; [exact Hbody|]. split; [exact Hs|]. split; [exact Hnz|].
+      split; cbn [shift_st unw edone escr]; [exact Hi0|]. rewrite !app_length. lia.
+  - destruct Htc as [Hst Hbuf].
+    assert (Hbw : buf' = W).
+    { apply app_inv_head in Hbuf. rewrite Hc in Hbuf. apply app_inv_head in Hbuf. exact Hbuf. }
+    subst buf'.
+    rewrite wr_ok by lia. eexists; split; [reflexivity|]. cbn zeta. split.
+    + unfold shift_st, unw in Hst. destruct st as [sa sb sc], stw' as [ta tb tc]. cbn [ectx edone escr] in *.
+      inversion Hst. unfold unw. cbn [ectx edone escr]. f_equal; lia.
+    + fold (upd (qbuf q) wbase W).
+      rewrite <- (window_read q P W wbase wlen Hq Hl Hc (Build_window_geo _ _ _ _ Hin Hout Hgfit Hcap) Hfit) at 1.
+      apply upd_same. lia.
+  - contradiction.
+Qed.
+
+(* ---------- the window geometries of mpt_queue_push ---------- *)
+(* whole storage, data starts at offset 0 *)
+Lemma geo_aligned q : qinv q -> qoff q = 0 -> window_geo q 0 0 (qmax q).
+Proof.
+  intros (Hb & Hl & Ho) H0. constructor; try lia.
+  intros j Hj _. unfold cidx. rewrite H0. cbn [Nat.add]. destruct (Nat.ltb_spec j (qmax q)); lia.
+Qed.
+
+(* lower part: window [off, max), data does not reach the wrap yet *)
+Lemma geo_lower q : qinv q -> qoff q < qmax q -> window_geo q 0 (qoff q) (qmax q - qoff q).
+Proof.
+  intros (Hb & Hl & Ho) Hlt. constructor; try lia.
+  intros j Hj _. unfold cidx. cbn [Nat.add]. destruct (Nat.ltb_spec (qoff q + j) (qmax q)); lia.
+Qed.
+
+(* upper part: the first segment [off, max) is full of finished data, window = [0, off) *)
+Lemma geo_upper q : qinv q -> 0 < qoff q -> qoff q < qmax q ->
+  window_geo q (qmax q - qoff q) 0 (qoff q).
+Proof.
+  intros (Hb & Hl & Ho) H0 Hlt. constructor; try lia.
+  - intros j Hj _. unfold cidx. destruct (Nat.ltb_spec (qoff q + (qmax q - qoff q + j)) (qmax q)); lia.
+  - intros i Hi. right. unfold cidx. destruct (Nat.ltb_spec (qoff q + i) (qmax q)); lia.
+Qed.
